@@ -57,7 +57,7 @@ CHECKS = {
          "explore reallocation). Outside: the Framed Stream/Sink state machines (boxed futures + Buffer<B>: CBMC out of memory "
          "beyond one frame), BytesCodec, serde_json codec, Windows CMSG. Two genuine defects repaired (known_findings.json: fixed)."),
  "C06": dict(
-    engine="kani (+ shim-loom for the cross-thread half)",
+    engine="kani (+ shim-loom for the cross-thread half) + mirsym (close wrappers)",
     technique="bounded model checking of the compiled SharedFd code (Kani/CBMC); cross-thread half compiled with --cfg loom against "
               "a sequential loom stand-in whose atomics/Arc/waker slot are preemption points: the solver chooses the interleaving",
     category="proof",
@@ -66,7 +66,9 @@ CHECKS = {
          "descriptor is dropped exactly once and only after every handle is gone, close() resolves at the first poll after the "
          "last release and never before, and the closer's waker fires at the last release; try_unwrap succeeds iff unique. "
          "sync build: under one solver-chosen preemption (second dropper or woken closer inside a handle drop) the descriptor is "
-         "never closed early or twice; the no-lost-wake-up clause FAILS there and is reported as known finding F9 (two schedules).",
+         "never closed early or twice; the no-lost-wake-up clause FAILS there and is reported as known finding F9 (two schedules). "
+         "Close wrappers (MIR of File::close / Socket::close with uninterpreted functions): close awaits take() of its own descriptor "
+         "exactly once, uses no uniqueness shortcut, and closes exactly the descriptor take() handed over with one close operation.",
     design_ref="DESIGN.md §1 C06",
     note="Trusted: Kani, CBMC, cadical; /verif/shim/loom (sequentially consistent Arc/atomics/AtomicWaker model) for the sync half. "
          "Outside: descriptor-producing operations (accept/open/socket) under cancellation — they need real descriptors and a live "
@@ -92,13 +94,16 @@ CHECKS = {
          "iour/mod.rs, poll/mod.rs (FFI, HashMap, flume, kernel), zero-copy notification ordering, multishot, thread-pool FrozenKey and the "
          "Submit futures are outside. Stub: resume_unwind_io = identity."),
  "C02": dict(
-    engine="kani",
+    engine="kani + mirsym",
     technique="bounded model checking of Proactor::pop/update_waker/Entry::notify/key.rs (Kani/CBMC), harness = driver via __verif hook, "
               "solver-chosen completion order and results",
     category="proof",
     text="Proof within bounds, above the driver: pop is Pending until the driver's completion and then Ready exactly once with exactly the "
          "driver's result (Ok(n) or OS error) and the submitted, tagged buffer; with two pending operations completed and popped in any "
-         "order nothing is swapped, duplicated or lost; the last registered waker of the right operation is woken exactly once.",
+         "order nothing is swapped, duplicated or lost; the last registered waker of the right operation is woken exactly once; a cancel "
+         "token fired after completion never overwrites the OS's result. Polling driver interest queues (MIR, <= 2 readers and "
+         "<= 2 writers queued, symbolic readiness): a descriptor is armed for exactly the directions somebody waits for, an event "
+         "completes the oldest waiter of a ready direction and nothing else.",
     design_ref="DESIGN.md §1 C01/C02/C05",
     note="Same conditions and exclusions as C01: the io_uring/polling drivers themselves (queue overflow, bursts, readiness order) are outside."),
  "C05": dict(
@@ -160,7 +165,8 @@ CHECKS = {
               "IourOpCode::create_entry (SQE decoded) against PollOpCode::operate with rustix::backend::net::syscalls::{recv,send} "
               "replaced by recording stubs; fd/flags/view/result are solver-chosen; second layer: the coroutine MIR of the compio-net Socket / stream / half wrappers interpreted with uninterpreted functions (mirsym), z3 deciding which operation is built from which arguments and which result mapping is applied",
     category="proof",
-    text="Proof within bounds, at the op layer: for Recv and Send on a heap buffer view of capacity 8 with symbolic fd, flags "
+    text="Proof within bounds, at the op layer: for Recv and Send on a heap buffer view of capacity 8 (and RecvVectored / SendVectored "
+         "over two heap members of capacity 4: msghdr decoded, iovecs compared pair by pair, oversized counts cut to the capacity) with symbolic fd, flags "
          "and view bounds, the io_uring submission entry and the polling driver's syscall are the same request (fd, pointer, "
          "length, flags) and equal the buffer contract (recv: the whole writable region, send: exactly the initialized bytes); "
          "the syscall's byte count is returned unchanged. Wrapper layer: Socket::{recv, recv_vectored, send, send_vectored, recv_from} "
@@ -312,7 +318,7 @@ def main():
         f.write("\n")
 
 
-HOOK_COMMITS = ["fe7f040", "ba00e96"]
+HOOK_COMMITS = ["fe7f040", "ba00e96", "abdcb33"]
 
 if __name__ == "__main__":
     main()
